@@ -150,6 +150,10 @@ func cmdCheck(args []string) int {
 	// ---- verdicts ----
 	known := loadKnown(filepath.Join(*verif, "known_findings.json"))
 	ledger := loadLedger(filepath.Join(*verif, "baseline", "ledger.json"))
+	deadOK := map[string]bool{}
+	for _, n := range ledger["dead:"+*prop] {
+		deadOK[n] = true
+	}
 	var violations, knownHits, broken []string
 	nDis, nFail, nUndec := 0, 0, 0
 	seen := map[string]bool{}
@@ -182,6 +186,11 @@ func cmdCheck(args []string) int {
 		case "solver-disagreement":
 			broken = append(broken, o.Name+": solvers disagree")
 		case "cover-failed":
+			if deadOK[o.Name] {
+				// a return that is unreachable under the stated invariants on the pinned tree (recorded at rebaseline)
+				nCover++
+				continue
+			}
 			nFail++
 			violations = append(violations, reportViolation(*verif, *prop, o, known, &knownHits, "contract became vacuous (unreachable) here"))
 		case "failed":
@@ -249,6 +258,14 @@ func cmdCheck(args []string) int {
 			}
 		}
 		sort.Strings(names)
+		var dead []string
+		for _, o := range obls {
+			if o.Verdict == "cover-failed" && strings.Contains(o.Name, ".cover.ret") {
+				dead = append(dead, o.Name)
+			}
+		}
+		sort.Strings(dead)
+		ledger["dead:"+*prop] = dead
 		ledger[*prop] = names
 		saveLedger(filepath.Join(*verif, "baseline", "ledger.json"), ledger)
 	}
